@@ -535,6 +535,11 @@ def __Solver_1(simu: "_Simu", problemType: "ProblemType") -> _types.FloatArray:
     x0 = x0[dofsUnknown]
 
     lb, ub = simu.Get_lb_ub(problemType)
+    # bounds given for every dof: the reduced system keeps those of its unknowns
+    if np.size(lb) == x.shape[0]:
+        lb = np.asarray(lb)[dofsUnknown]
+    if np.size(ub) == x.shape[0]:
+        ub = np.asarray(ub)[dofsUnknown]
 
     bi -= Aic @ xc
     xi = _Solve_Axb(
